@@ -142,14 +142,17 @@ def moduleS (T : Bytes) (v : View) : Obs :=
     fld "size" (do let a ← rd32 T 8; let b ← rd32 T 12; pure (b - a)) ++
     t "cmdline=" ++ strS T v 16 v.n ++ t "," ++ t "}"
 
-/-- deprecated `elf_sections()`: asserts, then the section count -/
+/-- the asserts of the deprecated `elf_sections()` in front of `sections()` -/
+def elfSectionsOpen (T : Bytes) (v : View) : Res (Nat × Nat) := do
+  let es ← rd32 T 12
+  let sh ← rd32 T 16
+  if es * sh > v.size then .panic else elfOpen T v
+
+/-- deprecated `elf_sections()`: asserts, then the section count and the drained iterator -/
 def elfSectionsS (T : Bytes) (v : View) : Obs :=
-  resS toString (do
-    let es ← rd32 T 12
-    let sh ← rd32 T 16
-    if es * sh > v.size then .panic else
-    let r ← elfOpen T v
-    pure r.1)
+  resO (fun (x : Nat × Nat) =>
+    t (toString x.1 ++ "[" ++ String.join ((elfIter T x.2 x.1 20).1.map elfSecS)) ++ endS (elfIter T x.2 x.1 20).2)
+    (elfSectionsOpen T v)
 
 def fbGetterS (area : Bytes) (fbG : Res (Option View)) : Obs :=
   t "fb=" ++
